@@ -1,6 +1,10 @@
 use std::{borrow::Cow, fmt::Display, sync::Arc};
 
-use pyo3::{exceptions::PyValueError, prelude::*, types::PyList};
+use pyo3::{
+    exceptions::PyValueError,
+    prelude::*,
+    types::{PyInt, PyList},
+};
 
 #[derive(Debug, Clone)]
 pub(crate) enum FieldValue {
@@ -103,6 +107,13 @@ impl<'a, 'py> pyo3::FromPyObject<'a, 'py> for FieldValue {
             Ok(FieldValue::Int64(inner))
         } else if let Ok(inner) = value.extract::<u64>() {
             Ok(FieldValue::Uint64(inner))
+        } else if value.is_instance_of::<PyInt>() {
+            // Ints that fit neither i64 nor u64 must not fall through to the (lossy) float conversion.
+            let display = value.str().map(|s| s.to_string()).unwrap_or_else(|_| "<int>".to_string());
+            Err(PyValueError::new_err(format!(
+                "{display} is not a valid value: \
+                integers must fit in the signed or unsigned 64-bit range"
+            )))
         } else if let Ok(inner) = value.extract::<f64>() {
             if inner.is_finite() {
                 Ok(FieldValue::Float64(inner))
